@@ -171,6 +171,19 @@ static void codec_case(const Case &c, FILE *out)
       fprintf(out, "\"len2\":%d,\"text2\":\"%s\",", d3.len, json_escape(d3.text).c_str());
     }
   }
+  else if (kind == "asm")
+  {
+    // several texts (one per line), each assembled alone at the same address
+    std::vector<std::string> lines = split(c.body, '\n');
+    fprintf(out, "\"res\":[");
+    for (size_t i = 0; i < lines.size(); i++)
+    {
+      Assembled a = assemble_at(cpu, addr, lines[i]);
+      fprintf(out, "%s[%s,\"%s\"]", i == 0 ? "" : ",", a.ok ? "true" : "false",
+        hex_bytes(a.bytes.data(), a.bytes.size()).c_str());
+    }
+    fprintf(out, "],");
+  }
   else
   {
     Assembled a = assemble_at(cpu, addr, c.body);
